@@ -306,11 +306,12 @@ Proof.
   - assert (G0 : forall (vs' : list via_param),
       Forall2 (vrel (s2b "Via")) (map h_val (filter (fun x => same_header (h_name x) (s2b "Via")) (h :: r)))
                                  (map h_val (filter (fun x => same_header (h_name x) (s2b "Via")) (fst (h :: r', vs'))))).
-    { intros vs'. cbn. rewrite E. cbn. constructor; [left; reflexivity|exact IH]. }
+    { intros vs'. cbn [filter fst]. rewrite E. cbn [map]. constructor; [left; reflexivity|exact IH]. }
     destruct (h_val h) as [s|l|l|l|f|f|c] eqn:Ev; try apply G0.
     destruct (parse_via s) as [l| |] eqn:Ep; try apply G0.
-    cbn. rewrite E. cbn. rewrite Ev. constructor; [|exact IH]. right. cbn. split; [reflexivity|exact Ep].
-  - cbn. rewrite E. exact IH.
+    cbn [filter fst h_name]. rewrite E. cbn [map h_val]. rewrite Ev. constructor; [|exact IH].
+    right. cbn. split; [reflexivity|exact Ep].
+  - cbn [filter fst]. rewrite E. exact IH.
 Qed.
 Lemma top_after_decode m : top_via_of (fst (s_all_via_params m)) = top_via_of m.
 Proof.
